@@ -87,7 +87,11 @@ func gen(t *rapid.T) Case {
 			op.Kind = "reserved"
 			valid := rapid.Permutation(ref.AnyMethods).Draw(t, "resPerm")[:rapid.IntRange(0, 2).Draw(t, "resValid")]
 			pos := rapid.IntRange(0, len(valid)).Draw(t, "resPos")
-			op.Methods = append(append(append([]string{}, valid[:pos]...), rapid.SampledFrom(reserved).Draw(t, "resM")), valid[pos:]...)
+			bad := rapid.SampledFrom(reserved).Draw(t, "resM")
+			if len(valid) > 0 && rapid.IntRange(0, 3).Draw(t, "repeatValid") == 0 {
+				bad = valid[0] // the same valid method twice in one call
+			}
+			op.Methods = append(append(append([]string{}, valid[:pos]...), bad), valid[pos:]...)
 		}
 		c.History = append(c.History, op)
 	}
